@@ -492,6 +492,17 @@ func judgeLeftovers(o *Outcome, prop string, sc *Scenario, meta *c11Meta, res *R
 			o.Stats.probe("end:error")
 		}
 	}
+	// a cancelled process ends promptly: whatever it was waiting for (a lock held by somebody else, with any
+	// --wait-timeout), it stops waiting when the signal arrives (elapsed time is no measure: a process that
+	// is not scheduled sees the clock move too; what counts is that it does not go back to sleep)
+	for i, p := range res.Procs {
+		if p.CancelTime > 0 && p.SleepsAfterCancel >= 3 {
+			o.viol(prop, "termination", "cancelled-process-kept-waiting",
+				fmt.Sprintf("run %d: p%d was interrupted at t=%v and went back to sleep %d times in its lock wait before it ended at t=%v (%s; --wait-timeout %.2f s)", runIdx, i, p.CancelTime, p.SleepsAfterCancel, p.EndTime, firstLine(p.ErrText), sc.Procs[i].WaitTimeoutS))
+		} else if p.CancelTime > 0 {
+			o.Stats.probe("cancelled-process-ended-promptly")
+		}
+	}
 	stale := map[string]bool{}
 	for _, n := range meta.Stale {
 		stale[n] = true
